@@ -121,28 +121,6 @@ pub fn c17_seq_n3() {
     body_after_other(3);
 }
 
-/// Deepest curve (n = 29): every anchor is an integer lattice point inside the closed quintant
-/// triangle 0 ≤ i, 0 ≤ j, i + j ≤ 2^29 (the linear/mirroring part of the orientation handling,
-/// `1 << n` and `(1 << 2n) − s − 1`, at the depth the tests never reach).
-#[kani::proof]
-#[kani::unwind(31)]
-pub fn c17_anchor_depth29() {
-    let n: usize = 29;
-    let s: u64 = kani::any();
-    kani::assume(s < (1u64 << (2 * n)));
-    let o = any_orientation();
-    let a = s_to_anchor(s, n, o);
-    assert!(a.k < 4);
-    let x = a.offset.x();
-    let y = a.offset.y();
-    let m = (1u64 << n) as f64;
-    assert!(x == x.floor() && y == y.floor());
-    assert!(x >= -1.0 && y >= -1.0 && x + y <= m + 1.0 && x <= m + 1.0 && y <= m + 1.0);
-    kani::cover!(s == (1u64 << (2 * n)) - 1);
-    kani::cover!(x + y > m - 2.0);
-    core::mem::forget(a);
-}
-
 /// ∀ s < 4^n, all orientations: the anchor is a lattice point with integer coordinates inside the
 /// (closed) quintant triangle — no overflow in `1 << n` / `(1 << 2n) − s − 1` for deep curves.
 #[kani::proof]
